@@ -12,7 +12,8 @@ def run(ctx):
                                "LoomVerif.C01.Dep.arc_inspect_dec_not_independent": "refuted-full-statement",
                                "LoomVerif.C01.Dep.tryrecv_send_not_independent": "refuted-full-statement"})
     ctx.build_harness()
-    programs = families.c01_family(ctx.seed, ctx.quick)
+    from gen import corpus
+    programs = list(dict.fromkeys(corpus.corpus('C01') + families.c01_family(ctx.seed, ctx.quick)))
     cap = 3000 if ctx.quick else 20000
     ctx.cov["rule"] = ("exhaustive 2-thread (≤2 units per thread) and 3-thread (≤1 unit) programs over the kind-sets "
                        "atomic / mutex / rwlock / condvar / notify / park / channel / arc, sampled by seed to the tier's "
